@@ -123,6 +123,8 @@ class SphericalToCartesian(Model):
         x = cs * np.cos(lon)
         y = cs * np.sin(lon)
         z = np.sin(lat)
+        # z depends on lat only: all outputs get the common shape of the inputs
+        x, y, z = np.broadcast_arrays(x, y, z, subok=True)
 
         return x, y, z
 
